@@ -9,7 +9,7 @@ package record_test
 
 import (
 	"bytes"
-	"crypto/elliptic"
+	"crypto/ecdsa"
 	"crypto/sha256"
 	"encoding/asn1"
 	"encoding/json"
@@ -61,7 +61,7 @@ type vfC08C struct {
 	walk    int
 	step    int
 	prefix  []any
-	rsaName string // concrete type standing for the abstract "RSA"
+	variant map[string]string // abstract key type -> the member of its family this behaviour runs with
 	keys    map[string]vfC08Pair
 	msgs    map[string][]byte
 	cur     any
@@ -75,8 +75,8 @@ type vfC08C struct {
 }
 
 func (c *vfC08C) concrete(kt string) string {
-	if kt == "RSA" {
-		return c.rsaName
+	if v, ok := c.variant[kt]; ok {
+		return v
 	}
 	return kt
 }
@@ -93,7 +93,7 @@ func (c *vfC08C) key(kt string, who int) vfC08Pair {
 
 func (c *vfC08C) mismatch(cls, what string, exp, got any) {
 	c.res.AddMismatch(vfh.Mismatch{Class: cls, What: what, Walk: c.walk, Step: c.step, Expected: exp, Got: got,
-		Prefix: append([]any(nil), c.prefix...), Cfg: map[string]any{"part": "C", "rsa": c.rsaName}})
+		Prefix: append([]any(nil), c.prefix...), Cfg: map[string]any{"part": "C", "keys": c.variant}})
 }
 
 func vfC08Must[T any](v T, err error) T {
@@ -317,12 +317,17 @@ func (c *vfC08C) checkIDFunction(pub crypto.PubKey, id peer.ID, where string) (e
 	return embedded
 }
 
-func vfC08NegateS(kt string, sig []byte) []byte {
+// (r, s) -> (r, n-s) for the group order of the signer's own curve
+func vfC08NegateS(pub crypto.PubKey, sig []byte) []byte {
 	var n *big.Int
-	switch kt {
-	case "ECDSA":
-		n = elliptic.P256().Params().N
-	case "Secp256k1":
+	std, err := crypto.PubKeyToStdKey(pub)
+	if err != nil {
+		return nil
+	}
+	switch k := std.(type) {
+	case *ecdsa.PublicKey:
+		n = k.Curve.Params().N
+	case *crypto.Secp256k1PublicKey:
 		n = secp256k1.S256().N
 	default:
 		return nil
@@ -357,9 +362,9 @@ func vfC08BitFlips(b []byte, allBits bool, rnd interface{ Intn(int) int }, f fun
 	f(append(append([]byte(nil), b...), b...), "double")
 }
 
-func vfC08RunC(res *vfh.Result, cnt *vfC08Counters, w vfh.Walk, rsaName string, seed int64) {
-	rnd := vfC08Rnd(seed, int64(w.Walk), int64(len(rsaName)))
-	c := &vfC08C{res: res, cnt: cnt, walk: w.Walk, rsaName: rsaName, keys: map[string]vfC08Pair{}, rnd: rnd, allBits: vfh.Thorough()}
+func vfC08RunC(res *vfh.Result, cnt *vfC08Counters, w vfh.Walk, variant map[string]string, vi int, seed int64) {
+	rnd := vfC08Rnd(seed, int64(w.Walk), int64(vi))
+	c := &vfC08C{res: res, cnt: cnt, walk: w.Walk, variant: variant, keys: map[string]vfC08Pair{}, rnd: rnd, allBits: vfh.Thorough()}
 	c.msgs = map[string][]byte{}
 	for i, m := range []string{"m1", "m2"} {
 		b := make([]byte, 8+rnd.Intn(40))
@@ -449,7 +454,7 @@ func vfC08RunC(res *vfh.Result, cnt *vfC08Counters, w vfh.Walk, rsaName string, 
 				}
 			})
 			// the classic (r, s) -> (r, n-s) re-encoding of ECDSA signatures
-			if alt := vfC08NegateS(nx.Sig.Kt, c.sigOrig); alt != nil {
+			if alt := vfC08NegateS(signer, c.sigOrig); alt != nil {
 				if ok, _ := signer.Verify(msg, alt); ok {
 					cnt.inc("C.sig-malleable."+nx.Sig.Kt+".negate-s", 1)
 					c.mismatch("L2:signature-encoding-malleable:"+nx.Sig.Kt, "the signature (r, n-s) verifies for the same key and message", false, true)
@@ -974,35 +979,49 @@ func TestVerifC08Keys(t *testing.T) {
 		t.Fatal(err)
 	}
 	seed := vfh.Seed()
-	rsas := []string{"RSA"}
-	if vfh.Thorough() {
-		rsas = append(rsas, "RSA3072")
-	}
+	// The key dimension is a family per abstract type.  Quick: every walk runs once, the member of each
+	// family rotating with the walk index (all members are spread evenly over the walks); thorough: every
+	// walk that touches a type with a larger family runs with every member.
 	type job struct {
-		w   vfh.Walk
-		rsa string
+		w       vfh.Walk
+		variant map[string]string
+		vi      int
+	}
+	maxFam := 0
+	for _, f := range vfC08Families {
+		if len(f) > maxFam {
+			maxFam = len(f)
+		}
+	}
+	assign := func(i int) map[string]string {
+		m := map[string]string{}
+		for a, f := range vfC08Families {
+			m[a] = f[i%len(f)]
+		}
+		return m
 	}
 	var jobs []job
 	for _, w := range walks {
-		for _, r := range rsas {
-			if r != "RSA" && !bytes.Contains(w.Init, []byte(`"RSA"`)) {
-				// the second RSA size only matters on walks that touch an RSA key
-				touches := false
-				for _, s := range w.Steps {
-					if bytes.Contains(s.State, []byte(`"RSA"`)) {
-						touches = true
-						break
-					}
-				}
-				if !touches {
-					continue
-				}
+		if !vfh.Thorough() {
+			jobs = append(jobs, job{w, assign(w.Walk), w.Walk})
+			continue
+		}
+		touches := bytes.Contains(w.Init, []byte(`"RSA"`)) || bytes.Contains(w.Init, []byte(`"ECDSA"`))
+		for _, st := range w.Steps {
+			if touches {
+				break
 			}
-			jobs = append(jobs, job{w, r})
+			touches = bytes.Contains(st.State, []byte(`"RSA"`)) || bytes.Contains(st.State, []byte(`"ECDSA"`))
+		}
+		for vi := 0; vi < maxFam; vi++ {
+			if vi > 0 && !touches {
+				break
+			}
+			jobs = append(jobs, job{w, assign(vi), vi})
 		}
 	}
 	vfC08Gen("RSA", 0)
-	if err := vfC08Parallel(len(jobs), func(i int) { vfC08RunC(res, cnt, jobs[i].w, jobs[i].rsa, seed) }); err != nil {
+	if err := vfC08Parallel(len(jobs), func(i int) { vfC08RunC(res, cnt, jobs[i].w, jobs[i].variant, jobs[i].vi, seed) }); err != nil {
 		t.Fatalf("C08 machinery: %v", err)
 	}
 	snap := cnt.snapshot()
